@@ -184,10 +184,12 @@ type Body struct {
 }
 
 type Typedef struct {
-	Name    string   `json:"name"`
-	Type    *TypeRef `json:"type"`
-	Units   string   `json:"units,omitempty"`
-	Default *string  `json:"default,omitempty"`
+	Name  string   `json:"name"`
+	Type  *TypeRef `json:"type"`
+	Units string   `json:"units,omitempty"`
+	// EmptyUnits: the typedef says units ""; (a definition like any other: it hides the units of the types below)
+	EmptyUnits bool    `json:"empty_units,omitempty"`
+	Default    *string `json:"default,omitempty"`
 }
 
 type EnumM struct {
@@ -540,7 +542,7 @@ func (p *pr) body(b *Body) {
 	for _, t := range b.Typedefs {
 		p.open("typedef %s", t.Name)
 		p.typ(t.Type)
-		if t.Units != "" {
+		if t.Units != "" || t.EmptyUnits {
 			p.line("units %s;", Q(t.Units))
 		}
 		if t.Default != nil {
